@@ -208,6 +208,9 @@ pub(crate) mod isa {
         pub unconstrained: bool,
         /// the instruction word, when one was fetched
         pub fetched: Option<u16>,
+        /// the frame this step enters: (calling / interrupted / faulting instruction's address, subroutine start or
+        /// vector-table address, kind: 0 subroutine, 1 trap, 2 interrupt, 9 exception entry (kind not constrained))
+        pub frame: Option<(u16, u16, u8)>,
     }
     pub(crate) fn user(psr: u16) -> bool { (psr >> 15) != 0 }
     pub(crate) fn prio(psr: u16) -> u16 { (psr >> 8) & 7 }
@@ -269,6 +272,7 @@ pub(crate) mod isa {
         let target = c.read(r, rs, table_addr);
         r.st.pc = target;
         r.st.depth = r.st.depth.wrapping_add(1);
+        r.frame = Some((r.fault_pc, table_addr, if r.exc_entry { 9 } else if new_prio.is_some() { 2 } else { 1 }));
     }
     fn exception(r: &mut Ref, c: &mut Ctx, rs: usize, real_traps: bool, vect: u16, out: Outcome, fault_pc: u16) {
         r.fault_pc = fault_pc;
@@ -279,7 +283,7 @@ pub(crate) mod isa {
     /// One step of the LC-3 from `st0`; `pending` is the request the devices present at this boundary.
     pub(crate) fn step(st0: St, rw: [Word; 8], t: &mut Table, real_traps: bool, ignore_privilege: bool, pending: Option<(u8, u8)>) -> Ref {
         let mut r = Ref { st: st0, out: Outcome::Done, completed: false, entered: false, fault_pc: st0.pc, exc_entry: false,
-                          unconstrained: false, fetched: None };
+                          unconstrained: false, fetched: None, frame: None };
         let mut c = Ctx { t, ignore_privilege, rw };
         // 0. interrupt, only at the instruction boundary and only above the current priority
         if let Some((v, p)) = pending {
@@ -355,6 +359,7 @@ pub(crate) mod isa {
             0b0100 => {
                 let target = if w & 0x800 != 0 { pc1.wrapping_add(sext(w & 0x7FF, 11)) } else { r.st.r[sr1] };
                 r.st.r[7] = pc1; r.st.pc = target; r.st.depth = r.st.depth.wrapping_add(1);
+                r.frame = Some((pc0, target, 0));
             }
             0b1100 => { r.st.pc = r.st.r[sr1]; if sr1 == 7 { r.st.depth = r.st.depth.saturating_sub(1); } }
             0b1111 => {
@@ -425,7 +430,7 @@ fn step_vs_isa(class: Class, real_traps: bool) {
     let pre = scalars(&sim);
     // devices: an arbitrary pending request
     let pend: Option<(u8, u8)> = kani::any();
-    unsafe { PENDING = pend; POLLS = 0; TAB = Table::new(); }
+    unsafe { PENDING = pend; POLLS = 0; TAB = Table::new(); frame::verif_kani::PUSHED = [None; 2]; frame::verif_kani::PUSHED_N = 0; }
     // ---- the reference, on the pre-state; fills the access table
     let rf = isa::step(st_of(&pre), pre.r, tab(), real_traps, fl.ignore_privilege, pend);
     let is_irq = taken(pend, pre.psr);
@@ -465,6 +470,18 @@ fn step_vs_isa(class: Class, real_traps: bool) {
     assert!(eq8(&data(&post.r), &rf.st.r), "C08.regs: registers as the ISA prescribes");
     assert!(post.ssp.get() == rf.st.ssp, "C08.ssp: saved stack pointer as the ISA prescribes");
     assert!(post.depth == rf.st.depth, "C27.depth: frame depth = calls/traps/interrupts entered minus returns, saturating");
+    // ---- the frame entered (C27: caller = the calling / interrupted instruction, callee = subroutine start or vector, kind)
+    let (pushed, pushed_n) = unsafe { (frame::verif_kani::PUSHED, frame::verif_kani::PUSHED_N) };
+    match rf.frame {
+        None => assert!(pushed_n == 0, "C27.frame: a frame is entered only by JSR/JSRR, TRAP, interrupts and exception entries"),
+        Some((caller, callee, kind)) => {
+            assert!(pushed_n == 1, "C27.frame: exactly one frame is entered");
+            let (c0, c1, k) = pushed[0].unwrap();
+            assert!(c0 == caller, "C27.frame: the frame holds the calling instruction's address (the interrupted instruction's, for interrupts)");
+            assert!(c1 == callee, "C27.frame: the frame holds the subroutine start or the trap/interrupt vector");
+            assert!(kind == 9 || k == kind, "C27.frame: the frame holds the call kind");
+        }
+    }
     // ---- PSR (CC after an entry sequence is the simulator's own choice)
     let mask = if rf.entered { 0xFFF8 } else { 0xFFFF };
     assert!(post.psr & mask == rf.st.psr & mask, "C08.psr: privilege, priority and condition codes as the ISA prescribes");
@@ -494,6 +511,7 @@ macro_rules! step_harness {
         #[kani::stub(<DeviceHandler as ExternalDevice>::poll_interrupt, contract_poll)]
         #[kani::stub(Simulator::read_mem, contract_read_mem)]
         #[kani::stub(Simulator::write_mem, contract_write_mem)]
+        #[kani::stub(frame::FrameStack::push_frame, frame::verif_kani::contract_push_frame)]
         #[kani::unwind(9)]
         fn $name() { step_vs_isa($class, $real) }
     };
